@@ -575,6 +575,16 @@ theorem onh0_basis1 : ONH0 basis1 ⟨0, by decide⟩ (1 : ℂ) where
   z0 := rfl
   snorm := by simp
 
+/-- the jump operator `c = (2)` of the one-dimensional system -/
+def c2 : Mat ℂ 1 1 := Mat.ofFn fun _ _ => 2
+
+
+theorem rabs_eq_abs (x : ℚ) : rabs x = |x| := by
+  unfold rabs
+  split_ifs with h
+  · rw [abs_of_neg h]
+  · rw [abs_of_nonneg (not_lt.mp h)]
+
 end examples
 
 end QM.C18
